@@ -213,6 +213,14 @@ enum Op {
     Repeat { h: usize, d: usize, n: usize },
     Spare { h: usize },
     Drop { h: usize },
+    // the `HipStr` API proper (model: `HipVerif.Str.strStep`); arguments are NOT restricted to
+    // char boundaries / well-formed bytes
+    SPushStr { h: usize, bs: Vec<u8> },
+    SPushChar { h: usize, c: u32 },
+    SPop { h: usize },
+    STruncate { h: usize, n: usize },
+    SSlice { h: usize, d: usize, sb: Bd, eb: Bd, try_: bool },
+    SFromUtf8 { d: usize, bs: Vec<u8> },
 }
 
 impl Op {
@@ -252,7 +260,18 @@ impl Op {
             Op::Repeat { .. } => "repeat",
             Op::Spare { .. } => "spare",
             Op::Drop { .. } => "drop",
+            Op::SPushStr { .. } => "s_push_str",
+            Op::SPushChar { .. } => "s_push_char",
+            Op::SPop { .. } => "s_pop",
+            Op::STruncate { .. } => "s_truncate",
+            Op::SSlice { try_: false, .. } => "s_slice",
+            Op::SSlice { try_: true, .. } => "s_try_slice",
+            Op::SFromUtf8 { .. } => "s_from_utf8",
         }
+    }
+
+    fn is_str_level(&self) -> bool {
+        self.name().starts_with("s_")
     }
 
     fn line(&self) -> String {
@@ -286,6 +305,12 @@ impl Op {
             Op::AsMut { h, i, b } | Op::ToMut { h, i, b } => format!("{n} {h} {i} {b:02x}"),
             Op::Mutate { h, script, .. } => format!("{n} {h} {}", show_script(script)),
             Op::Repeat { h, d, n: k } => format!("{n} {h} {d} {k}"),
+            Op::SPushStr { h, bs } => format!("{n} {h} {}", hex(bs)),
+            Op::SPushChar { h, c } => format!("{n} {h} {c}"),
+            Op::SPop { h } => format!("{n} {h}"),
+            Op::STruncate { h, n: k } => format!("{n} {h} {k}"),
+            Op::SSlice { h, d, sb, eb, .. } => format!("{n} {h} {d} {} {}", sb.show(), eb.show()),
+            Op::SFromUtf8 { d, bs } => format!("{n} {d} {}", hex(bs)),
         }
     }
 
@@ -334,6 +359,13 @@ impl Op {
             ["repeat", h, d, n] => Op::Repeat { h: u(h)?, d: u(d)?, n: u(n)? },
             ["spare", h] => Op::Spare { h: u(h)? },
             ["drop", h] => Op::Drop { h: u(h)? },
+            ["s_push_str", h, x] => Op::SPushStr { h: u(h)?, bs: unhex(x)? },
+            ["s_push_char", h, c] => Op::SPushChar { h: u(h)?, c: c.parse().ok()? },
+            ["s_pop", h] => Op::SPop { h: u(h)? },
+            ["s_truncate", h, n] => Op::STruncate { h: u(h)?, n: u(n)? },
+            ["s_slice", h, d, a, b] => Op::SSlice { h: u(h)?, d: u(d)?, sb: Bd::parse(a)?, eb: Bd::parse(b)?, try_: false },
+            ["s_try_slice", h, d, a, b] => Op::SSlice { h: u(h)?, d: u(d)?, sb: Bd::parse(a)?, eb: Bd::parse(b)?, try_: true },
+            ["s_from_utf8", d, x] => Op::SFromUtf8 { d: u(d)?, bs: unhex(x)? },
             _ => return None,
         })
     }
@@ -347,7 +379,8 @@ impl Op {
             | Op::Borrowed { d, .. }
             | Op::WithCap { d, .. }
             | Op::Inline { d, .. }
-            | Op::TryInline { d, .. } => (None, Some(d)),
+            | Op::TryInline { d, .. }
+            | Op::SFromUtf8 { d, .. } => (None, Some(d)),
             Op::Clone { h, d }
             | Op::Slice { h, d, .. }
             | Op::SliceRef { h, d, .. }
@@ -355,6 +388,7 @@ impl Op {
             | Op::ToLower { h, d }
             | Op::ToUpper { h, d }
             | Op::IntoOwned { h, d }
+            | Op::SSlice { h, d, .. }
             | Op::Repeat { h, d, .. } => (Some(h), Some(d)),
             Op::Push { h, .. }
             | Op::Pop { h }
@@ -371,6 +405,10 @@ impl Op {
             | Op::ToVec { h }
             | Op::IntoBorrowed { h }
             | Op::Spare { h }
+            | Op::SPushStr { h, .. }
+            | Op::SPushChar { h, .. }
+            | Op::SPop { h }
+            | Op::STruncate { h, .. }
             | Op::Drop { h } => (Some(h), None),
         }
     }
@@ -479,10 +517,26 @@ trait Subject: Sized + 'static {
     fn spare(&mut self) -> usize {
         unimplemented!()
     }
+    /// `HipStr::pop`
+    fn s_pop(&mut self) -> Option<char> {
+        unimplemented!()
+    }
+    /// `from_utf8(HipByt)` / `TryFrom<&[u8]>` / `TryFrom<Vec<u8>>`; `Err(valid_up_to)`.
+    /// `owned` = the bytes as an owned value prepared by the caller (route 1: a `HipByt`,
+    /// route 2: a `Vec`), `None` = build it here (inside the counted region).
+    /// On error the owned bytes come back so that they are dropped outside the counted region.
+    fn s_from_utf8(bs: &[u8], route: u64, owned: Option<Owned<Self::B>>) -> Result<Self, (usize, Option<Owned<Self::B>>)> {
+        unimplemented!()
+    }
     /// `as_mut_slice().is_some()` (or its equivalent)
     fn uniq(&mut self) -> bool;
     /// formatting compared with std's: `Some((expected, observed))` on a difference
     fn fmt_check(&self, oracle: &[u8]) -> Option<(String, String)>;
+}
+
+enum Owned<B: Backend> {
+    Byt(HipByt<'static, B>),
+    Vec(Vec<u8>),
 }
 
 fn bkind_name(k: hipstr::bytes::SliceErrorKind) -> &'static str {
@@ -536,8 +590,8 @@ impl<B: Backend> Subject for HipByt<'static, B> {
     fn hb(&self) -> &HipByt<'static, B> {
         self
     }
-    fn supports(_: &Op) -> bool {
-        true
+    fn supports(op: &Op) -> bool {
+        !op.is_str_level()
     }
     fn new() -> Self {
         HipByt::new()
@@ -821,6 +875,28 @@ impl<B: Backend> Subject for HipStr<'static, B> {
     }
     fn repeat(&self, n: usize) -> Self {
         HipStr::repeat(self, n)
+    }
+    fn s_pop(&mut self) -> Option<char> {
+        HipStr::pop(self)
+    }
+    fn s_from_utf8(bs: &[u8], route: u64, owned: Option<Owned<B>>) -> Result<Self, (usize, Option<Owned<B>>)> {
+        match route {
+            1 => {
+                let b = match owned {
+                    Some(Owned::Byt(b)) => b,
+                    _ => HipByt::from(bs),
+                };
+                HipStr::from_utf8(b).map_err(|e| (e.utf8_error().valid_up_to(), Some(Owned::Byt(e.into_bytes()))))
+            }
+            2 => {
+                let v = match owned {
+                    Some(Owned::Vec(v)) => v,
+                    _ => bs.to_vec(),
+                };
+                HipStr::try_from(v).map_err(|e| (e.utf8_error().valid_up_to(), Some(Owned::Vec(e.into_bytes()))))
+            }
+            _ => HipStr::try_from(bs).map_err(|e| (e.valid_up_to(), None)),
+        }
     }
     fn uniq(&mut self) -> bool {
         self.as_mut_str().is_some()
@@ -1353,6 +1429,9 @@ impl<'l, T: Subject> Session<'l, T> {
                 }
                 true
             }
+            Op::SPushStr { h, bs } => std::str::from_utf8(bs).is_ok() && cur(*h).len() + bs.len() <= 4096,
+            Op::SPushChar { h, c } => char::from_u32(*c).is_some() && cur(*h).len() <= 4000,
+            Op::SFromUtf8 { bs, .. } => bs.len() <= 4096,
             Op::Repeat { h, n, .. } => {
                 let total = cur(*h).len() as u128 * *n as u128;
                 // either small, or so large that both `checked_mul`/`Vec::with_capacity` refuse
@@ -1596,6 +1675,63 @@ impl<'l, T: Subject> Session<'l, T> {
                 let x = self.pool[*h].take();
                 unit(counted(move || drop(x)))
             }
+            Op::SPushStr { h, bs } => {
+                let x = self.pool[*h].as_mut().unwrap();
+                unit(counted(|| x.push(bs, 0)))
+            }
+            Op::SPushChar { h, c } => {
+                let mut buf = [0u8; 4];
+                let enc = char::from_u32(*c).unwrap().encode_utf8(&mut buf).as_bytes();
+                let x = self.pool[*h].as_mut().unwrap();
+                unit(counted(|| x.push(enc, 1)))
+            }
+            Op::SPop { h } => {
+                let x = self.pool[*h].as_mut().unwrap();
+                match counted(|| x.s_pop()) {
+                    Some(Some(c)) => format!("char:{}", hex(c.to_string().as_bytes())),
+                    Some(None) => "nochar".into(),
+                    None => "panic".into(),
+                }
+            }
+            Op::STruncate { h, n } => {
+                let x = self.pool[*h].as_mut().unwrap();
+                unit(counted(|| x.truncate(*n)))
+            }
+            Op::SSlice { h, d, sb, eb, try_ } => self.exec(&Op::Slice { h: *h, d: *d, sb: *sb, eb: *eb, try_: *try_ }),
+            Op::SFromUtf8 { d, bs } => {
+                let valid = std::str::from_utf8(bs).is_ok();
+                // route 2 (an owned Vec of at most 23 bytes) would be copied inline and freed:
+                // the model's `from_slice` has no such event
+                let route = match var % 3 {
+                    2 if bs.len() <= ICAP && !bs.is_empty() => 0,
+                    r => r,
+                };
+                // a rejected call gives the bytes back: they are built (and dropped) outside
+                // the counted region; an accepted one allocates what `from_slice` allocates
+                let owned = if valid {
+                    None
+                } else {
+                    alloc::set_mode(alloc::TRACK);
+                    let o = match route {
+                        1 => Some(Owned::Byt(HipByt::from(&bs[..]))),
+                        2 => Some(Owned::Vec(bs.to_vec())),
+                        _ => None,
+                    };
+                    alloc::set_mode(alloc::OFF);
+                    o
+                };
+                match counted(move || T::s_from_utf8(bs, route, owned)) {
+                    Some(Ok(v)) => {
+                        self.pool[*d] = Some(v);
+                        "unit".into()
+                    }
+                    Some(Err((n, back))) => {
+                        drop(back);
+                        format!("utf8err:{n}")
+                    }
+                    None => "panic".into(),
+                }
+            }
         }
     }
 }
@@ -1615,6 +1751,17 @@ enum Exp {
 }
 
 impl Exp {
+    /// the Lean spec's answer: a refused `HipStr`-level call is reported as `rejected`
+    fn matches_spec(&self, ret: &str) -> bool {
+        if ret == "rejected" {
+            return match self {
+                Exp::Exact(s) => s == "panic" || s.starts_with("utf8err:"),
+                Exp::SliceErr => true,
+                Exp::AnyNat => false,
+            };
+        }
+        self.matches(ret)
+    }
     fn matches(&self, ret: &str) -> bool {
         match self {
             Exp::Exact(s) => s == ret,
@@ -1799,6 +1946,72 @@ fn oracle_step(pool: &mut [Option<Vec<u8>>], srcs: &[&'static [u8]], op: &Op, fl
             pool[*h] = None;
             ex("unit")
         }
+        // --- `String` semantics (the pool entries of a text run are well-formed) ---
+        Op::SPushStr { h, bs } => {
+            let mut s = String::from_utf8(pool[*h].take().unwrap()).expect("oracle value is UTF-8");
+            s.push_str(std::str::from_utf8(bs).unwrap());
+            pool[*h] = Some(s.into_bytes());
+            ex("unit")
+        }
+        Op::SPushChar { h, c } => {
+            let mut s = String::from_utf8(pool[*h].take().unwrap()).expect("oracle value is UTF-8");
+            s.push(char::from_u32(*c).unwrap());
+            pool[*h] = Some(s.into_bytes());
+            ex("unit")
+        }
+        Op::SPop { h } => {
+            let mut s = String::from_utf8(pool[*h].take().unwrap()).expect("oracle value is UTF-8");
+            let r = s.pop();
+            pool[*h] = Some(s.into_bytes());
+            match r {
+                Some(c) => Exp::Exact(format!("char:{}", hex(c.to_string().as_bytes()))),
+                None => ex("nochar"),
+            }
+        }
+        Op::STruncate { h, n } => {
+            let mut s = String::from_utf8(pool[*h].take().unwrap()).expect("oracle value is UTF-8");
+            // `String::truncate` panics off a char boundary
+            let r = catch_unwind(AssertUnwindSafe(|| {
+                let mut t = s.clone();
+                t.truncate(*n);
+                t
+            }));
+            match r {
+                Ok(t) => {
+                    s = t;
+                    pool[*h] = Some(s.into_bytes());
+                    ex("unit")
+                }
+                Err(_) => {
+                    pool[*h] = Some(s.into_bytes());
+                    ex("panic")
+                }
+            }
+        }
+        Op::SSlice { h, d, sb, eb, try_ } => {
+            let s = std::str::from_utf8(pool[*h].as_ref().unwrap()).expect("oracle value is UTF-8");
+            match s.get((sb.bound(), eb.bound())) {
+                Some(sub) => {
+                    let v = sub.as_bytes().to_vec();
+                    pool[*d] = Some(v);
+                    ex(if *try_ { "true" } else { "unit" })
+                }
+                None => {
+                    if *try_ {
+                        Exp::SliceErr
+                    } else {
+                        ex("panic")
+                    }
+                }
+            }
+        }
+        Op::SFromUtf8 { d, bs } => match std::str::from_utf8(bs) {
+            Ok(s) => {
+                pool[*d] = Some(String::from(s).into_bytes());
+                ex("unit")
+            }
+            Err(e) => Exp::Exact(format!("utf8err:{}", e.valid_up_to())),
+        },
     }
 }
 
@@ -1829,6 +2042,9 @@ impl<'l, T: Subject> Session<'l, T> {
             let tags = hb.is_inline() as u8 + hb.is_borrowed() as u8 + hb.is_allocated() as u8;
             if tags != 1 {
                 mon.push(format!("h{i}: representation predicates not exclusive"));
+            }
+            if T::text() && std::str::from_utf8(hb.as_slice()).is_err() {
+                mon.push(format!("h{i}: HipStr holds ill-formed UTF-8: {}", hex(hb.as_slice())));
             }
             let u = if uniq { "1" } else { "0" }.to_string();
             let f: Vec<String> = if hb.is_inline() {
@@ -1962,6 +2178,10 @@ impl<'l, T: Subject> Session<'l, T> {
         // 3. read everything back
         let (obs, mon) = self.observe();
         for m in mon {
+            if m.contains("ill-formed UTF-8") {
+                add("monitor", "utf8".into(), "every live HipStr is well-formed UTF-8 after every step".into(), m);
+                continue;
+            }
             let sub = m.split(':').nth(1).unwrap_or("").trim().chars().take(24).collect::<String>();
             add("monitor", format!("heap:{sub}"), "every view inside live memory it owns or borrows".into(), m);
         }
@@ -2088,7 +2308,7 @@ impl<'l, T: Subject> Session<'l, T> {
             // spec vs std
             let (shead, spool) = s.split_once(" |").unwrap_or((s, ""));
             let sret = shead.split_whitespace().find_map(|t| t.strip_prefix("ret=")).unwrap_or("");
-            if !pd.exp.matches(sret) {
+            if !pd.exp.matches_spec(sret) {
                 add("spec-vs-std", "ret".into(), pd.exp.show(), sret.to_string());
             }
             let mut sp: Vec<Option<String>> = vec![None; SLOTS];
@@ -2200,6 +2420,8 @@ struct RunOut {
     dis: Option<Dis>,
     applied: Vec<String>,
     infos: Vec<StepInfo>,
+    /// contents of the target of each applied op just before it ran
+    pre_contents: Vec<Option<Vec<u8>>>,
 }
 
 /// Runs a fixed list of ops from a fresh state (replay, shrinking, exhaustive enumeration).
@@ -2207,10 +2429,13 @@ fn run_ops<T: Subject>(hdr: &Hdr, ops: &[Op], lean: Option<&mut LeanDriver>) -> 
     let mut s = Session::<T>::new(hdr, lean)?;
     let mut infos = vec![];
     let mut dis = None;
+    let mut pre_contents = vec![];
     for op in ops {
+        let pre = op.slots().0.and_then(|h| s.oracle.get(h).cloned().flatten());
         match s.step(op)? {
             StepRes::Skipped => {}
             StepRes::Done(info, d) => {
+                pre_contents.push(pre);
                 infos.push(info);
                 if d.is_some() {
                     dis = d;
@@ -2226,7 +2451,7 @@ fn run_ops<T: Subject>(hdr: &Hdr, ops: &[Op], lean: Option<&mut LeanDriver>) -> 
         Some(d) => applied.into_iter().take(d.step + 1).collect(),
         None => applied,
     };
-    Ok(RunOut { dis, applied, infos })
+    Ok(RunOut { dis, applied, infos, pre_contents })
 }
 
 fn shorter_payloads(op: &Op, text: bool) -> Vec<Op> {
@@ -2249,6 +2474,15 @@ fn shorter_payloads(op: &Op, text: bool) -> Vec<Op> {
             }
         }
         Op::Push { h, bs } => v.extend(cut(bs).into_iter().map(|b| Op::Push { h: *h, bs: b })),
+        Op::SPushStr { h, bs } => v.extend(cut(bs).into_iter().map(|b| Op::SPushStr { h: *h, bs: b })),
+        Op::SFromUtf8 { d, bs } => {
+            for n in [0, 1, bs.len() / 2, bs.len().saturating_sub(1)] {
+                if n < bs.len() {
+                    v.push(Op::SFromUtf8 { d: *d, bs: bs[..n].to_vec() });
+                    v.push(Op::SFromUtf8 { d: *d, bs: bs[bs.len() - n..].to_vec() });
+                }
+            }
+        }
         Op::Mutate { h, script, leak } if !script.is_empty() => {
             for k in 0..script.len() {
                 let mut s = script.clone();
@@ -2266,6 +2500,7 @@ fn shrink<T: Subject>(hdr: &Hdr, ops: Vec<Op>, target: &Dis, lean: &mut Option<L
     let same = |d: &Option<Dis>| d.as_ref().map_or(false, |d| d.kind == target.kind && d.sub == target.sub);
     let mut best = ops;
     let mut best_dis = target.clone();
+    let last_pre: std::cell::RefCell<Option<Vec<u8>>> = Default::default();
     let mut try_ = |cand: &Vec<Op>, budget: &mut u64| -> Option<(Vec<Op>, Dis)> {
         if *budget == 0 {
             return None;
@@ -2274,7 +2509,9 @@ fn shrink<T: Subject>(hdr: &Hdr, ops: Vec<Op>, target: &Dis, lean: &mut Option<L
         match run_ops::<T>(hdr, cand, lean.as_mut()) {
             Ok(r) if same(&r.dis) => {
                 let applied: Vec<Op> = r.applied.iter().filter_map(|l| Op::parse(l)).collect();
-                Some((applied, r.dis.unwrap()))
+                let d = r.dis.unwrap();
+                *last_pre.borrow_mut() = r.pre_contents.get(d.step).cloned().flatten();
+                Some((applied, d))
             }
             _ => None,
         }
@@ -2283,6 +2520,23 @@ fn shrink<T: Subject>(hdr: &Hdr, ops: Vec<Op>, target: &Dis, lean: &mut Option<L
     if let Some((a, d)) = try_(&best, budget) {
         best = a;
         best_dis = d;
+    }
+    // the failing op alone on a fresh value with the same contents as its target
+    if best.len() > 2 {
+        if let (Some(op), Some(content)) = (best.get(best_dis.step).cloned(), last_pre.borrow().clone()) {
+            if let (Some(h), _) = op.slots() {
+                for ctor in [Op::FromSlice { d: h, bs: content.clone() }, Op::FromVec { d: h, bs: content.clone(), cap: content.len() + 8 }] {
+                    let cand = vec![ctor, op.clone()];
+                    if let Some((a, d)) = try_(&cand, budget) {
+                        if a.len() < best.len() {
+                            best = a;
+                            best_dis = d;
+                            break;
+                        }
+                    }
+                }
+            }
+        }
     }
     loop {
         let mut progress = false;
@@ -2359,7 +2613,10 @@ const LENS: [usize; 20] = [0, 0, 1, 1, 2, 5, 11, 22, 23, 23, 24, 24, 25, 26, 30,
 
 fn payload(rng: &mut Rng, len: usize, text: bool) -> Vec<u8> {
     if text {
-        const CH: [&str; 14] = ["a", "B", "z", "Q", "0", " ", "M", "x", "é", "ß", "Ü", "€", "😀", "Z"];
+        // ASCII, é (C3 A9), € (E2 82 AC), 🦀 (F0 9F A6 80), U+00BF (C2 BF), U+FFFD (EF BF BD),
+        // U+10FFFF (F4 8F BF BF), combining U+0301 (CC 81)
+        const CH: [&str; 16] =
+            ["a", "B", "z", "Q", "0", " ", "M", "x", "é", "€", "🦀", "\u{BF}", "\u{FFFD}", "\u{10FFFF}", "\u{301}", "Z"];
         let mut s = String::new();
         while s.len() < len {
             let c = *rng.pick(&CH);
@@ -2409,12 +2666,92 @@ fn bad_bound(rng: &mut Rng, len: usize) -> Bd {
     }
 }
 
+const SCALARS: [u32; 12] = [0x61, 0x5A, 0x7F, 0xE9, 0xBF, 0x301, 0x20AC, 0xFFFD, 0xD7FF, 0xE000, 0x1F980, 0x10FFFF];
+
+/// ill-formed fragments, one per class of UTF-8 error
+const BAD_UTF8: [&[u8]; 26] = [
+    b"\x80",             // lone continuation
+    b"\xBF",             // lone continuation (top of the range)
+    b"\xC0\x80",         // overlong 2-byte
+    b"\xC1\xBF",         // overlong 2-byte
+    b"\xC3",             // truncated 2-byte
+    b"\xC3\x28",         // bad continuation
+    b"\xE0\x80\x80",     // overlong 3-byte
+    b"\xE0\x9F\xBF",     // overlong 3-byte
+    b"\xE2\x82",         // truncated 3-byte
+    b"\xE2",             // truncated 3-byte
+    b"\xE2\x28\xAC",     // bad 2nd byte
+    b"\xE2\x82\x28",     // bad 3rd byte
+    b"\xED\xA0\x80",     // surrogate D800
+    b"\xED\xBF\xBF",     // surrogate DFFF
+    b"\xF0\x80\x80\x80", // overlong 4-byte
+    b"\xF0\x8F\xBF\xBF", // overlong 4-byte
+    b"\xF0\x9F\xA6",     // truncated 4-byte
+    b"\xF0\x9F",         // truncated 4-byte
+    b"\xF0",             // truncated 4-byte
+    b"\xF0\x28\xA6\x80", // bad 2nd byte
+    b"\xF0\x9F\x28\x80", // bad 3rd byte
+    b"\xF0\x9F\xA6\x28", // bad 4th byte
+    b"\xF4\x90\x80\x80", // above U+10FFFF
+    b"\xF5\x80\x80\x80", // invalid lead F5
+    b"\xF8\x88\x80\x80\x80", // 5-byte form
+    b"\xFF",             // never valid
+];
+
+fn bad_utf8(rng: &mut Rng) -> Vec<u8> {
+    let len = *rng.pick(&[0, 1, 3, 10, 20, 22, 23, 24, 25, 30, 47]);
+    let mut v = payload(rng, len, true);
+    match rng.below(8) {
+        0 => {}                                  // well-formed: the accepted path
+        1 => v.truncate(rng.below(v.len() + 1)), // possibly cut inside a scalar
+        _ => {
+            let at = rng.below(v.len() + 1);     // any byte offset, also inside a scalar
+            let frag = *rng.pick(&BAD_UTF8);
+            v.splice(at..at, frag.iter().copied());
+        }
+    }
+    v
+}
+
+/// a `HipStr`-level op with UNRESTRICTED arguments (non-boundaries, ill-formed bytes)
+fn gen_str_op<T: Subject>(rng: &mut Rng, s: &Session<T>) -> Option<Op> {
+    let live = s.live();
+    let free = s.free();
+    let h = if live.is_empty() { None } else { Some(*rng.pick(&live)) };
+    let d = free.first().copied();
+    let len = h.map_or(0, |h| s.oracle[h].as_ref().map_or(0, |v| v.len()));
+    let roll = rng.below(100);
+    let op = if roll < 30 {
+        Op::STruncate { h: h?, n: rng.below(len + 2) }
+    } else if roll < 55 {
+        let a = rng.below(len + 2);
+        let b = if rng.chance(1, 8) { rng.below(len + 2) } else { a + rng.below(len + 2 - a) };
+        let (sb, eb) = if rng.chance(1, 10) { (bad_bound(rng, len), bad_bound(rng, len)) } else { bounds_for(rng, a, b, len) };
+        Op::SSlice { h: h?, d: d?, sb, eb, try_: rng.chance(2, 3) }
+    } else if roll < 65 {
+        Op::SPop { h: h? }
+    } else if roll < 75 {
+        Op::SPushChar { h: h?, c: *rng.pick(&SCALARS) }
+    } else if roll < 85 {
+        let n = *rng.pick(&[0, 1, 2, 3, 4, 24usize.saturating_sub(len), 23usize.saturating_sub(len), 24]);
+        Op::SPushStr { h: h?, bs: payload(rng, n, true) }
+    } else {
+        Op::SFromUtf8 { d: d?, bs: bad_utf8(rng) }
+    };
+    s.applicable(&op).then_some(op)
+}
+
 /// One random op for the current state (type-directed, biased towards the boundaries).
 fn gen_op<T: Subject>(rng: &mut Rng, s: &Session<T>, malformed: bool) -> Option<Op> {
     let text = T::text();
     let live = s.live();
     let free = s.free();
     for _ in 0..60 {
+        if text && rng.chance(3, 10) {
+            if let Some(op) = gen_str_op::<T>(rng, s) {
+                return Some(op);
+            }
+        }
         let cur = |h: usize| s.oracle[h].as_deref().unwrap_or(&[]);
         // target: prefer heap values
         let pick_h = |rng: &mut Rng| -> Option<usize> {
@@ -2775,6 +3112,98 @@ fn exhaustive<T: Subject>(backend: &str, ceil: u64, depth: usize, st: &mut Stats
     Ok(count)
 }
 
+/// Deterministic grid for the `HipStr` API proper: `truncate` at EVERY index 0..=len+1,
+/// `try_slice`/`slice` at every pair of indices, `pop` down to empty, `push(char)` of every
+/// class of scalar, `from_utf8`/`TryFrom` of every class of ill-formed sequence at every offset;
+/// on inline, heap (exact and spare capacity), shared heap and borrowed values.
+fn str_grid<T: Subject>(backend: &str, ceil: u64, st: &mut Stats, lean: &mut Option<LeanDriver>, save: &Option<String>) -> Result<u64, String> {
+    if !T::text() {
+        return Ok(0);
+    }
+    let t1 = "aé€🦀\u{BF}\u{FFFD}\u{10FFFF}e\u{301}".as_bytes().to_vec(); // 22 bytes: inline
+    let mut t2 = t1.clone();
+    t2.extend_from_slice("xyé€🦀z".as_bytes()); // 34 bytes: heap
+    let hdr = Hdr { ty: T::TY.into(), backend: backend.into(), ceil, srcs: vec![t1.clone(), t2.clone()] };
+    let reprs = |k: usize, t: &Vec<u8>| -> Vec<Vec<Op>> {
+        vec![
+            vec![Op::FromSlice { d: 0, bs: t.clone() }],
+            vec![Op::Borrowed { d: 0, src: k, off: 0, len: t.len() }],
+            vec![Op::FromVec { d: 0, bs: t.clone(), cap: t.len() + 9 }],
+            vec![Op::FromSlice { d: 0, bs: t.clone() }, Op::Clone { h: 0, d: 1 }],
+        ]
+    };
+    let mut seqs: Vec<Vec<Op>> = vec![];
+    for (k, t) in [&t1, &t2].into_iter().enumerate() {
+        let len = t.len();
+        let nchars = std::str::from_utf8(t).unwrap().chars().count();
+        for (ri, pre) in reprs(k, t).into_iter().enumerate() {
+            for n in 0..=len + 1 {
+                let mut q = pre.clone();
+                q.push(Op::STruncate { h: 0, n });
+                q.push(Op::SPop { h: 0 });
+                seqs.push(q);
+            }
+            let mut q = pre.clone();
+            for _ in 0..=nchars {
+                q.push(Op::SPop { h: 0 });
+            }
+            seqs.push(q);
+            for c in SCALARS {
+                let mut q = pre.clone();
+                q.push(Op::SPushChar { h: 0, c });
+                q.push(Op::SPushChar { h: 0, c });
+                seqs.push(q);
+            }
+            if ri == 2 {
+                continue;
+            }
+            for a in 0..=len + 1 {
+                for b in a.saturating_sub(1)..=len + 1 {
+                    let mut q = pre.clone();
+                    q.push(Op::SSlice { h: 0, d: 2, sb: Bd::I(a), eb: Bd::X(b), try_: true });
+                    seqs.push(q);
+                    if ri == 0 {
+                        let mut q = pre.clone();
+                        q.push(Op::SSlice { h: 0, d: 2, sb: if a > 0 { Bd::X(a - 1) } else { Bd::U }, eb: if b > 0 { Bd::I(b - 1) } else { Bd::X(0) }, try_: false });
+                        seqs.push(q);
+                    }
+                }
+            }
+        }
+    }
+    let short = "aé€🦀".as_bytes().to_vec(); // 10 bytes
+    let long = "0123456789abcdé€🦀é€🦀".as_bytes().to_vec(); // 32 bytes: the accepted prefix may be heap-sized
+    for base in [&short, &long] {
+        for frag in BAD_UTF8 {
+            for at in 0..=base.len() {
+                let mut v = base.clone();
+                v.splice(at..at, frag.iter().copied());
+                // the destination slot only varies the API route (hash of the line)
+                seqs.push((0..4).map(|d| Op::SFromUtf8 { d, bs: v.clone() }).collect());
+            }
+        }
+        for cut in 0..=base.len() {
+            seqs.push((0..4).map(|d| Op::SFromUtf8 { d, bs: base[..cut].to_vec() }).collect());
+        }
+    }
+    let n = seqs.len() as u64;
+    for q in seqs {
+        let r = run_ops::<T>(&hdr, &q, lean.as_mut())?;
+        for i in &r.infos {
+            st.record(T::TY, backend, i);
+        }
+        st.sequences += 1;
+        if let Some(d) = r.dis {
+            let applied: Vec<Op> = r.applied.iter().filter_map(|l| Op::parse(l)).collect();
+            report::<T>(st, &hdr, applied, d, lean, save);
+            if st.disagreements.len() >= 40 {
+                break;
+            }
+        }
+    }
+    Ok(n)
+}
+
 // ---------------------------------------------------------------------------------------------
 // replay, campaign, main
 // ---------------------------------------------------------------------------------------------
@@ -2893,6 +3322,7 @@ fn run_all(cli: &hipverif_harness::util::Cli, st: &mut Stats, lean: &mut Option<
         if verbose {
             eprintln!("{b}: random done, {} steps, {:.1}s", st.evaluations, t0.elapsed().as_secs_f64());
         }
+        exh += dispatch!("str", b, str_grid, b, REAL_CEIL, st, lean, save)?;
         if no_exh {
             continue;
         }
@@ -2916,7 +3346,11 @@ fn run_all(cli: &hipverif_harness::util::Cli, st: &mut Stats, lean: &mut Option<
          (bad ranges incl. usize::MAX, foreign/before/after slice_ref probes, oversized inline, overflowing repeat); 3/5 of the Arc/Rc sequences run with a \
          model ceiling of 1..3 stored counts and the real counter offset to hit the real ceiling at the same moment (C09); \
          plus exhaustive enumeration of every sequence ctor;op1;op2{} over a boundary alphabet of 12 constructors and ~36 op templates on handles 0/1 \
-         ({exh} sequences; HipByt all backends, also with ceiling 1; HipStr/HipOsStr/HipPath on Arc); corpus files replayed first: {corpus_n}. \
+         (HipByt all backends, also with ceiling 1; HipStr/HipOsStr/HipPath on Arc), and a HipStr grid per backend for the HipStr API proper \
+         (s_truncate at every index 0..=len+1, s_try_slice/s_slice at every index pair, s_pop to empty, s_push_char of 12 scalar classes, \
+         s_from_utf8 via from_utf8/TryFrom<&[u8]>/TryFrom<Vec<u8>> of 26 classes of ill-formed sequence at every offset; inline/heap/shared/borrowed; \
+         arguments NOT restricted to char boundaries; oracle = String/str; monitor: every live HipStr is well-formed UTF-8 after every step); \
+         {exh} enumerated sequences in all; 3/10 of the random HipStr ops are such unrestricted s_* ops; corpus files replayed first: {corpus_n}. \
          Every step: implementation vs Lean model (return value, 5 allocator event counters, per-handle tag/len/capacity/uniqueness/share count/owner Vec len/\
          canonical block/offset/bytes), implementation vs std oracle (return value, contents of every handle, Display/Debug text), Lean spec vs std oracle, \
          heap monitors (views inside live blocks, red zones, poisoned quarantine, layouts, end-of-sequence balance). \
